@@ -1510,13 +1510,11 @@ pub fn random(ctx: &mut Ctx) {
     });
     // every (size, hash, status) combination `reps` times with different random streams
     let reps = if tiny { 1 } else { ctx.by_tier(6, 8) };
-    if ctx.mine(0) {
-        // (under Miri one sweep step costs seconds: a handful of capacities, one status type)
-        let max = if tiny { 9 } else { ctx.by_tier(2000, 9000) };
+    // (not under Miri: one sweep step costs half a minute there; the native jobs cover it)
+    if ctx.mine(0) && !tiny {
+        let max = ctx.by_tier(2000, 9000);
         capacity_sweep::<u32>(ctx, max);
-        if !tiny {
-            capacity_sweep::<usize>(ctx, max);
-        }
+        capacity_sweep::<usize>(ctx, max);
     }
     let mut i = 0usize;
     for rep in 0..reps {
